@@ -489,6 +489,7 @@ def run(ck, replay_sets=None):
         stream_paths(ck, ask, pool, scratch, by_type, only_sets=sets, name="replayed_key_sets")
     s_lz = stream_keyhash(ck, ask, pool, scratch)
     stream_paths(ck, ask, pool, scratch, by_type)
+    stream_opseq(ck, ask, pool, scratch, by_type)
     stream_negative(ck, ask, pool, scratch, by_type)
     stream_codec(ck, ask, pool, scratch)
     stream_isk(ck, ask, pool, scratch)
@@ -539,6 +540,194 @@ def stream_keyhash(ck, ask, pool, scratch):
                 s.expect(e == hx(k.raw_nxp()), kdesc([k]), "PublicKeyEcc.export() is not X||Y at the fixed coordinate width", e)
                 ask(f"export {k.tok()}", lambda a, k=k, e=e: s.compare(kdesc([k]), e, a, "model exportKey differs"))
     return s
+
+
+# ------------------------------------------------------------------------------------------------ stream: set_rkh call sequences
+def stream_opseq(ck, ask, pool, scratch, by_type):
+    """RKHTv1.set_rkh / CertBlockV1.set_root_key_hash in arbitrary call orders: the table is the function slot -> last hash written"""
+    from spsdk.crypto.certificate import Certificate
+    from spsdk.crypto.keys import PublicKey
+    from spsdk.utils.crypto.cert_blocks import CertBlockV1
+    from spsdk.utils.crypto.rkht import RKHTv1
+    from spsdk.utils.crypto.rot import Rot
+    import random
+    rng = random.Random(f"C03/rkh_call_sequences/{ck.seed}")      # own generator: a replay reaches the same call sequences
+    s = ck.stream("rkh_call_sequences", "random sequences of RKHTv1.set_rkh / CertBlockV1.set_root_key_hash calls over slots 0..3 (permutations, "
+                  "descending, signing slot first, gaps, repeats, overwrites; on an empty, a from_keys-built and a parsed table): final table = "
+                  "slot -> last hash written (zeros for never-written slots below the highest), rkth = SHA-256 of the 4-slot table = "
+                  "RKHTv1.from_keys = Rot = hashlib reference for the same ordered key list, independent of the call order; "
+                  "model: Rkht.setSeq (theorems set_rkh_last_write_wins / set_rkh_order_independent / set_root_key_hash_any_order)")
+    rsa = [k for k in pool[("rsa", 2048)] + pool.get(("rsa_e", 2048), []) if k.b < 2 ** 24][:8] + pool[("rsa", 4096)][:1]
+    Z = bytes(32)
+    fam1 = by_type["cert_block_1"]
+
+    def apply_ref(table, ops):
+        t = list(table)
+        for i, h in ops:
+            t.extend([Z] * (i + 1 - len(t)))
+            t[i] = h
+        return t
+
+    def rkth_ref(table):
+        return H("sha256", b"".join(x if x else Z for x in table) + Z * (4 - len(table)))
+
+    def order_for(n, used, kind):
+        idx = list(range(n))
+        if kind == "ascending":
+            return idx
+        if kind == "descending":
+            return idx[::-1]
+        if kind == "signing_first":
+            return [used] + [i for i in idx if i != used]
+        if kind == "signing_last":
+            return [i for i in idx if i != used] + [used]
+        rng.shuffle(idx)
+        return idx
+
+    # ---- (A) the table class alone
+    for ci in range(ck.budget(120, 500)):
+        n0 = rng.choice([0, 0, 1, 2, 3, 4])
+        init_kind = rng.choice(["list", "from_keys", "parse"]) if n0 else "list"
+        keys0 = rng.sample(rsa, n0)
+        hashes0 = [key_hash(k) for k in keys0]
+        nops = rng.choice([1, 2, 3, 4, 4, 5, 6, 8])
+        pattern = rng.choice(["random", "random", "permutation", "descending", "rewrite_same"])
+        if pattern == "permutation":
+            slots = rng.sample(range(4), 4)[:max(nops, 2)]
+        elif pattern == "descending":
+            top = rng.randrange(1, 4)
+            slots = list(range(top, -1, -1))
+        elif pattern == "rewrite_same" and n0:
+            slots = [rng.randrange(n0) for _ in range(nops)]
+        else:
+            slots = [rng.randrange(4) for _ in range(nops)]
+        ops = []
+        for sl in slots:
+            if pattern == "rewrite_same" and n0:
+                hv = hashes0[sl]
+            else:
+                hv = key_hash(rng.choice(rsa)) if rng.random() < 0.7 else bytes(rng.getrandbits(8) for _ in range(32))
+            ops.append((sl, hv))
+        inp = {"table": init_kind, "keys": [k.desc() for k in keys0], "calls": [[i, h.hex()] for i, h in ops], "pattern": pattern}
+        s.note((ci, init_kind, n0, tuple(slots), pattern), cls=f"{init_kind}/{pattern}")
+
+        def build():
+            if init_kind == "from_keys":
+                return RKHTv1.from_keys([PublicKey.create(k.pub) for k in keys0])
+            if init_kind == "parse":
+                return RKHTv1.parse(RKHTv1(list(hashes0)).export())
+            return RKHTv1(list(hashes0))
+        tb = pyres(build)
+        if tb[0] != "ok":
+            s.expect(False, inp, "an RKHTv1 cannot be built from valid key hashes", tb[0])
+            continue
+        tab = tb[1]
+        before = safe(lambda: [bytes(x) for x in tab.rkh_list], None)
+        if before is None:
+            s.expect(False, inp, "RKHTv1.rkh_list is not readable")
+            continue
+        exp_before = hashes0 + ([Z] * (4 - n0) if init_kind == "parse" else [])
+        s.expect(before == exp_before, inp, "the table does not hold the key hashes it was built from", [x.hex()[:8] for x in before])
+        res = "ok"
+        for i, hv in ops:
+            r = pyres(tab.set_rkh, i, hv)
+            if r[0] != "ok":
+                res = r[0]
+                break
+        expect = apply_ref(before, ops)
+        if res != "ok":
+            s.expect(False, inp, "set_rkh refuses a 32-byte hash for a slot 0..3", res)
+            ask(f"setseq {','.join(x.hex() for x in before) or '-'} {','.join(f'{i}:{h.hex()}' for i, h in ops)}",
+                lambda a, res=res, inp=inp: s.compare(inp, res, a, "model setSeq differs (refusal)"))
+            continue
+        after = safe(lambda: [bytes(x) for x in tab.rkh_list], None)
+        rk = cres(tab.rkth)
+        s.expect(after == expect, inp, "after a sequence of set_rkh calls the table is not 'slot -> last hash written' (a write to one slot "
+                 "changed or dropped other slots)", [x.hex()[:8] for x in (after or [])], [x.hex()[:8] for x in expect])
+        s.expect(rk == hx(rkth_ref(expect)), inp, "rkth after a sequence of set_rkh calls is not SHA-256 of the 4-slot table of last writes", rk, hx(rkth_ref(expect)))
+        dump = ("ok:" + (",".join(x.hex() for x in after) or "-") + " " + norm_ok(rk)) if after is not None else "unreadable"
+        ask(f"setseq {','.join(x.hex() for x in before) or '-'} {','.join(f'{i}:{h.hex()}' for i, h in ops)}",
+            lambda a, dump=dump, inp=inp: s.compare(inp, dump, a, "model setSeq differs from the real table after the call sequence"))
+
+    # ---- (B) the certificate block: root certificate of the signing key + set_root_key_hash in every kind of order
+    kinds = ["ascending", "descending", "signing_first", "signing_last", "random", "random"]
+    for ci in range(ck.budget(60, 240)):
+        n = rng.choice([1, 2, 3, 4, 4, 4])
+        keys = rng.sample(rsa, n)
+        used = rng.randrange(n)
+        kind = kinds[ci % len(kinds)]
+        order = order_for(n, used, kind)
+        extra = []
+        if rng.random() < 0.4 and n > 1:                      # an overwrite on the way: a wrong hash first, the right one later
+            j = rng.randrange(n)
+            order = [j] + order
+            extra = [0]
+        as_bytes = rng.random() < 0.3
+        inp = kdesc(keys, used=used, call_order=order, first_call_is_overwritten=bool(extra), hash_as_bytes=as_bytes)
+        s.note((ci, n, used, tuple(order), as_bytes), cls=f"certblock/{kind}")
+        exp_tab = [key_hash(k) for k in keys]
+        exp_rkth = spec_py("cert_block_1", keys)
+
+        def build_cb():
+            cb = CertBlockV1(build_number=1)
+            certs = [Certificate(k.cert("none")) for k in keys]
+            cb.add_certificate(certs[used])
+            for pos, i in enumerate(order):
+                if pos in extra:
+                    cb.set_root_key_hash(i, bytes([0xA5]) * 32)
+                elif as_bytes:
+                    cb.set_root_key_hash(i, exp_tab[i])
+                else:
+                    cb.set_root_key_hash(i, certs[i])
+            return cb, certs
+        cbr = pyres(build_cb)
+        if cbr[0] != "ok":
+            s.expect(False, inp, "CertBlockV1 cannot be built by set_root_key_hash calls in this order", cbr[0])
+            continue
+        cb, certs = cbr[1]
+        tab = safe(lambda: [bytes(x) for x in cb.rkh], None)
+        s.expect(tab == exp_tab, inp, "CertBlockV1 root key hash table depends on the order of the set_root_key_hash calls",
+                 [x.hex()[:8] for x in (tab or [])], [x.hex()[:8] for x in exp_tab])
+        r1 = cres(lambda: cb.rkth)
+        s.expect(r1 == hx(exp_rkth), inp, "CertBlockV1.rkth depends on the order of the set_root_key_hash calls / on which key signs", r1, hx(exp_rkth))
+        r2 = cres(lambda: RKHTv1.from_keys([PublicKey.create(k.pub) for k in keys]).rkth())
+        s.expect(r1 == r2, inp, "CertBlockV1.rkth differs from RKHTv1.from_keys for the same ordered key list", r1, r2)
+        if ci % 4 == 0:
+            fam, rev = fam1[ci % len(fam1)]
+            r3 = cres(lambda: Rot(fam, rev, certs).calculate_hash())
+            s.expect(r1 == r3, dict(inp, family=fam), "CertBlockV1.rkth differs from Rot.calculate_hash for the same ordered key list", r1, r3)
+        s.expect(safe(lambda: cb.rkh_index) == used, inp, "rkh_index does not point at the signing root key", safe(lambda: cb.rkh_index), used)
+        ex = pyres(cb.export)
+        s.expect(ex[0] == "ok", inp, "CertBlockV1.export fails for a block built by set_root_key_hash calls in this order", ex[0])
+        ask(f"setseq - {','.join(f'{i}:' + ((bytes([0xA5]) * 32) if pos in extra else exp_tab[i]).hex() for pos, i in enumerate(order))}",
+            lambda a, tab=tab, r1=r1, inp=inp: s.compare(inp, "ok:" + ",".join(x.hex() for x in (tab or [])) + " " + r1, a,
+                                                         "model setSeq differs from the certificate block's table / rkth"))
+        if ex[0] != "ok":
+            continue
+        pr = pyres(CertBlockV1.parse, ex[1])
+        if pr[0] != "ok":
+            s.expect(False, inp, "CertBlockV1.parse(export()) fails", pr[0])
+            continue
+        p = pr[1]
+        s.expect(cres(lambda: p.rkth) == hx(exp_rkth), inp, "RKTH changes over export -> parse", cres(lambda: p.rkth))
+        # on the parsed block: re-writing a slot with the same hash changes nothing; writing another hash touches just that slot
+        j = rng.randrange(n)
+        before = safe(lambda: [bytes(x) for x in p.rkh], None)
+        w = pyres(p.set_root_key_hash, j, exp_tab[j])
+        after = safe(lambda: [bytes(x) for x in p.rkh], None)
+        inp_j = dict(inp, parsed_then_rewrite_slot=j)
+        s.expect(w[0] == "ok" and before is not None and after == before and cres(lambda: p.rkth) == hx(exp_rkth) and pyres(p.export) == ex, inp_j,
+                 "re-writing one slot of a parsed block with the same hash changes the table / RKTH / export", w[0])
+        j2 = rng.choice([i for i in range(4) if i != used])
+        other = bytes(rng.getrandbits(8) for _ in range(32))
+        w2 = pyres(p.set_root_key_hash, j2, other)
+        after2 = safe(lambda: [bytes(x) for x in p.rkh], None)
+        exp2 = apply_ref(after or [], [(j2, other)])
+        s.expect(w2[0] == "ok" and after2 == exp2 and cres(lambda: p.rkth) == hx(rkth_ref(exp2)), dict(inp, parsed_then_write_slot=j2, value=other.hex()),
+                 "writing one slot of a parsed block changes other slots", [x.hex()[:8] for x in (after2 or [])], [x.hex()[:8] for x in exp2])
+        if len(ask.lines) > 300:
+            ask.flush()
+    ask.flush()
 
 
 # ------------------------------------------------------------------------------------------------ real tool paths
